@@ -373,7 +373,8 @@ def run(P, R):
     R.check(r4, bool(read) and read <= written and {'master_identifier', 'fsm_statecode', 'instance_states'} <= read,
             'reader keys of the state publication are a subset of the writer keys', 'publish|keys', upd.loc(),
             'StateModes.update reads %s but StateModes.serial writes %s' % (sorted(read - written), sorted(written)))
-    fields = {ast.unparse(n.targets[0]): ast.unparse(n.value) for n in own_nodes(upd.node) if isinstance(n, ast.Assign)}
+    from ..defuse import closed_text as _ct
+    fields = {ast.unparse(n.targets[0]): _ct(upd, n.value) for n in own_nodes(upd.node) if isinstance(n, ast.Assign)}
     ok = fields.get('self.master_identifier') == "payload['master_identifier']" and \
         fields.get('self.state') == "SupvisorsStates(payload['fsm_statecode'])"
     R.check(r4, ok, 'the remote Master and state are stored from the matching payload keys', 'publish|fields',
